@@ -124,7 +124,7 @@ func x509Certs(ids []*gen.Identity) []*x509.Certificate {
 	return out
 }
 
-func (w *world) runAudit(c *core.Ctx, base int) {
+func (w *world) runAudit(c *core.Ctx, base int) int {
 	a := &audit{c: c, w: w, accept: map[string]int{}, reject: map[string]int{}}
 	kept := w.keptSequences(c)
 	for k, sq := range kept {
@@ -150,6 +150,7 @@ func (w *world) runAudit(c *core.Ctx, base int) {
 		c.End(i)
 	}
 	a.floors()
+	return base + len(ms) // the next free case number
 }
 
 // ---------------------------------------------------------------------------------------------------
